@@ -124,6 +124,7 @@ package fox
 //@   ensures tsr-flag: c.tsr ==> old(c.tsr)
 //@   ensures leaf: n != nil ==> n.route != nil
 //@   ensures live: !released[box(c)]
+//@   ensures lazy-len: lazy ==> len(*c.params) <= old(len(*c.params))
 
 //@ -- ---------------------------------------------------------------- C06 / C16: effect clauses (call-graph closure)
 //@ effects (*Router).ServeHTTP : nolock props C06
